@@ -42,6 +42,10 @@ type partioCase struct {
 	LenMode string `json:"reader_len"`            // size-1 size size+1 zero
 	Chunk   string `json:"chunk"`                 // whole one seven 513 dataeof
 	Op      string `json:"op"`                    // write | copy
+	// Via: "" = the table is written, then read back from the disk by GetPartitionTable (partitions as decoded);
+	// "inmem" = Disk.Partition(table): the Disk keeps the caller's own table object; "unordered" = as inmem with a second
+	// partition (index 2) listed BEFORE the partition under test (index 1) in the table's slice
+	Via string `json:"via,omitempty"`
 	CopyTo  string `json:"copy_target,omitempty"` // same bigger smaller
 }
 
@@ -110,6 +114,9 @@ func buildPartDisk(c *partioCase, extra uint64) (*memdev.Dev, *disk.Disk, int64,
 	var tbl partition.Table
 	if c.Table == "gpt" {
 		t := &gpt.Table{LogicalSectorSize: c.LSS, PhysicalSectorSize: c.PSS, ProtectiveMBR: true, GUID: fixedDiskGUID}
+		if c.Via == "unordered" {
+			t.Partitions = append(t.Partitions, &gpt.Partition{Index: 2, Start: c.Start + c.Sectors + 3, End: c.Start + c.Sectors + 3 + c.Sectors - 1, Type: gpt.LinuxFilesystem, Name: "p2", GUID: partGUID(2)})
+		}
 		t.Partitions = append(t.Partitions, &gpt.Partition{Index: 1, Start: c.Start, End: c.Start + c.Sectors - 1, Type: gpt.LinuxFilesystem, Name: "p1", GUID: partGUID(1)})
 		if c.Op == "copy" {
 			ts := c.Sectors
@@ -130,7 +137,7 @@ func buildPartDisk(c *partioCase, extra uint64) (*memdev.Dev, *disk.Disk, int64,
 			return nil, nil, 0, errors.New("n/a")
 		}
 		t := &mbr.Table{LogicalSectorSize: c.LSS, PhysicalSectorSize: c.PSS}
-		t.Partitions = append(t.Partitions, &mbr.Partition{Type: mbr.Linux, Start: uint32(c.Start), Size: uint32(c.Sectors)})
+		t.Partitions = append(t.Partitions, &mbr.Partition{Index: 1, Type: mbr.Linux, Start: uint32(c.Start), Size: uint32(c.Sectors)})
 		if c.Op == "copy" {
 			ts := c.Sectors
 			switch c.CopyTo {
@@ -142,9 +149,16 @@ func buildPartDisk(c *partioCase, extra uint64) (*memdev.Dev, *disk.Disk, int64,
 			if ts == 0 {
 				return nil, nil, 0, errors.New("n/a")
 			}
-			t.Partitions = append(t.Partitions, &mbr.Partition{Type: mbr.Linux, Start: uint32(c.Start + c.Sectors + 3), Size: uint32(ts)})
+			t.Partitions = append(t.Partitions, &mbr.Partition{Index: 2, Type: mbr.Linux, Start: uint32(c.Start + c.Sectors + 3), Size: uint32(ts)})
 		}
 		tbl = t
+	}
+	if c.Via != "" {
+		dk := &disk.Disk{Backend: be(d, false), Size: size, LogicalBlocksize: lss, PhysicalBlocksize: int64(c.PSS), DefaultBlocks: true}
+		if err := dk.Partition(tbl); err != nil {
+			return nil, nil, 0, fmt.Errorf("table refused: %w", err)
+		}
+		return d, dk, size, nil
 	}
 	if err := tbl.Write(d, size); err != nil {
 		return nil, nil, 0, fmt.Errorf("table refused: %w", err)
@@ -158,7 +172,7 @@ func buildPartDisk(c *partioCase, extra uint64) (*memdev.Dev, *disk.Disk, int64,
 
 func runPartioCase(c *partioCase) (sig, msg, outcome string) {
 	extra := uint64(0)
-	if c.Op == "copy" {
+	if c.Op == "copy" || c.Via == "unordered" {
 		extra = c.Sectors + 8
 	}
 	d, dk, _, err := buildPartDisk(c, extra)
@@ -171,6 +185,9 @@ func runPartioCase(c *partioCase) (sig, msg, outcome string) {
 	lss := int64(c.LSS)
 	pstart, psize := int64(c.Start)*lss, int64(c.Sectors)*lss
 	tag := fmt.Sprintf("%s|lss=%d|pss=%d", c.Table, c.LSS, c.PSS)
+	if c.Via != "" {
+		tag += "|via=" + c.Via
+	}
 	big := ""
 	if pstart >= 1<<32 || psize >= 1<<32 {
 		big = "|beyond-4GiB"
@@ -363,6 +380,15 @@ func enumC13(quick bool) []partioCase {
 						}
 					}
 					if !huge {
+						// the Disk keeps the caller's own table object (Disk.Partition), also with the slice out of index order
+						for _, via := range []string{"inmem", "unordered"} {
+							if via == "unordered" && tb == "mbr" {
+								continue // MBR slots are positional
+							}
+							for _, lm := range []string{"size", "size+1"} {
+								cs = append(cs, partioCase{Table: tb, Start: st, Sectors: sz, LSS: ss[0], PSS: ss[1], LenMode: lm, Chunk: "513", Op: "write", Via: via})
+							}
+						}
 						for _, ct := range []string{"same", "bigger", "smaller"} {
 							cs = append(cs, partioCase{Table: tb, Start: st, Sectors: sz, LSS: ss[0], PSS: ss[1], Op: "copy", CopyTo: ct})
 						}
